@@ -89,6 +89,26 @@ def handle : Handler := fun op args =>
         if d = 2 then (match integrate2D idealI idealMC nm 0 (fun _ _ => 1) 0 1 0 1 with | .ok _ => "ok" | .error _ => "err")
         else if d = 3 then (match integrate3D idealI idealMC nm 0 (fun _ _ _ => 1) 0 1 0 1 0 1 with | .ok _ => "ok" | .error _ => "err")
         else "bad-args"
+  | "c13.nest" => withArgs (do
+        let n1 ← tok; let p1 ← pInt; let n2 ← tok; let p2 ← pInt
+        let a ← pRat; let b ← pRat; let l0 ← pRat; let l1 ← pRat; let h0 ← pRat; let h1 ← pRat
+        let ts ← pTerms
+        pure (n1, p1, n2, p2, a, b, l0, l1, h0, h1, ts)) args
+      fun (n1, p1, n2, p2, a, b, l0, l1, h0, h1, ts) =>
+        ans (nestedCall idealI n1 p1 n2 p2 (fun x y => evalTerms ts x y 1) (fun x => l0 + l1 * x) (fun x => h0 + h1 * x) a b)
+  | "c13.sphfirst" => withArgs (do let nm ← tok; let _ ← pInt; let _ ← pMany tok 6; pure nm) args
+      fun nm => match integrate3Dsph idealI idealMC (fun r th ph => (r, th, ph)) id nm 0 (fun _ => 1) 0 1 (-1) 1 0 1 with
+        | .ok _ => "ok" | .error _ => "err"
+  | "c13.sweep" => withArgs (do let nm ← tok; let _ ← pNat; let _ ← pNat; pure nm) args
+      fun nm => match integrate1D idealI nm 0 (fun _ => 1) 0 1 with | .ok _ => "ok" | .error _ => "err"
+  | "c13.sphrad" => withArgs (do let nm ← tok; let _ ← pMany tok 5; pure nm) args
+      fun nm => match integrate3Dsph idealI idealMC (fun r th ph => (r, th, ph)) id nm 0 (fun _ => 1) 0 1 (-1) 1 0 1 with
+        | .ok _ => "ok" | .error _ => "err"
+  | "c13.default23" => some "ok"
+  | "c13.asknown" => withArgs (do let nm ← tok; let _ ← pInt; let a ← pRat; let b ← pRat; let _ ← pMany tok 4; pure (nm, a, b)) args
+      fun (nm, a, b) => match integrate1D idealI nm 0 (fun _ => 1) a b with | .ok _ => "ok" | .error _ => "err"
+  | "c13.asknownp" => withArgs (do let nm ← tok; let p ← pInt; let a ← pRat; let b ← pRat; let ts ← pTerms; pure (nm, p, a, b, ts)) args
+      fun (nm, p, a, b, ts) => ans (integrate1D idealI nm p (fun x => evalTerms ts x 1 1) a b)
   | "c13.default1" => some "ok"
   | "c13.sphdefault" => some "ok"
   | "c13.findeps" => withArgs (do let a ← pRat; let b ← pRat; let pr ← pRat; let c ← pRats; pure (a, b, pr, c)) args
